@@ -192,3 +192,46 @@ func (u *Unit) DefaultReturnsError(si *SwitchInfo) bool {
 	}
 	return false
 }
+
+// SiteIn pairs a site with its unit.
+type SiteIn struct {
+	U *Unit
+	S *flow.Site
+}
+
+// AllSites finds every site matching m in every function (and function literal) of the module whose
+// source mentions the identifier hint (a cheap syntactic prefilter; hint "" scans everything).
+// pkgs restricts the scan to packages with one of the given short paths (nil = all).
+func (w *World) AllSites(m M, hint string, pkgs []string) []SiteIn {
+	var out []SiteIn
+	for _, fn := range w.P.Funcs() {
+		if fn.Decl.Body == nil {
+			continue
+		}
+		if pkgs != nil && !contains(pkgs, load.ShortPkg(fn.Pkg.PkgPath)) {
+			continue
+		}
+		if hint != "" {
+			found := false
+			ast.Inspect(fn.Decl.Body, func(n ast.Node) bool {
+				if id, ok := n.(*ast.Ident); ok && id.Name == hint {
+					found = true
+				}
+				return !found
+			})
+			if !found {
+				continue
+			}
+		}
+		u, err := w.Unit(fn.Name)
+		if err != nil {
+			continue
+		}
+		for _, uu := range append([]*Unit{u}, u.Lits()...) {
+			for _, s := range uu.Match(m) {
+				out = append(out, SiteIn{uu, s})
+			}
+		}
+	}
+	return out
+}
